@@ -48,6 +48,10 @@ def initial_state(E: Engine):
             st.assume(v.t >= 0 if ty.nullable else v.t > 0)
         env[p] = v
     st.env = dict(env)
+    if "." in E.qual and E.cls is None or E.qual.count(".") >= 2:
+        # a nested function refers to itself by its local name: modular recursion through its own contract
+        from .engine import STATIC
+        st.env[E.fn.name] = V(STATIC, py=E.key)
     for g, gty in S.GHOSTS.items():
         st.ghost[g] = fresh(gty, "G0_" + g)
     return st, env
@@ -418,12 +422,15 @@ def verify_function(key, prop_prefix="", replayer=None, only_labels=None) -> lis
         stt, _, _, _, txt, _ = check(st2.pc, z3.BoolVal(False), timeout_ms=1000, quick=True)
         if stt == DISCHARGED:
             vac.append("/".join(st2.trace[-6:]) or "<straight-line>")
-    if vac:
+    if vac and len(vac) == len(exits):
         results.append(Result("%s%s.vacuity" % (prop_prefix, short), ERROR, klass="L", backend="z3", function=key,
-                              output="path condition refutable on %d exit path(s): %s" % (len(vac), vac[:4])))
+                              output="the path condition of every exit path is refutable (inconsistent contracts or axioms): %s" % (vac[:4],)))
+    dead_note = ""
+    if vac:
+        dead_note = "; %d path(s) are dead once quantified facts are used: %s" % (len(vac), vac[:3])
     results.append(Result("%s%s.reachable" % (prop_prefix, short), DISCHARGED, klass="L", backend="z3",
-                          function=key, detail="canary: %d feasible exit path(s), %d pruned; postcondition False would be refuted"
-                          % (len(exits), E.pruned)))
+                          function=key, detail="canary: %d feasible exit path(s), %d pruned; postcondition False would be refuted%s"
+                          % (len(exits) - len(vac), E.pruned, dead_note)))
     return results, E
 
 
@@ -524,6 +531,12 @@ def exit_obligations(E: Engine, c: S.Contract, env, kind, st: State, payload):
                 E.oblige(st, z3.Not(res.isnone), "return-not-none", "P", "post",
                          "returns None where the contract promises %s" % c.returns)
                 res = res.val
+            if res.ty.kind == "any" and c.returns.kind in ("str", "bytes", "int", "bool"):
+                tagname = {"str": "str", "bytes": "bytes", "int": "int", "bool": "bool"}[c.returns.kind]
+                tag = ops.UF("any_isinstance_" + tagname, z3.IntSort(), z3.BoolSort())
+                E.oblige(st, z3.And(res.t != 0, tag(res.t)), "return-is-" + tagname, "P", "post",
+                         "the returned object is a %s (established by an isinstance test on the path)" % tagname)
+                res = V(c.returns, ops.UF("unbox_" + c.returns.kind, z3.IntSort(), sort_of(c.returns))(res.t))
             try:
                 res = coerce(res, c.returns)
             except Unsupported as ex:
